@@ -250,8 +250,8 @@ class BaseSection(base.Sectionable):
         self._include = new_value
 
         # strict needs to be False, otherwise finalizing a document will
-        # basically always fail.
-        self.merge(new_section, strict=False)
+        # basically always fail. Resolving the reference is always recorded.
+        self._merge(new_section, False, True)
 
     @property
     def link(self):
@@ -293,9 +293,9 @@ class BaseSection(base.Sectionable):
             self.clean()
 
         # strict needs to be False, otherwise finalizing a document will
-        # basically always fail.
+        # basically always fail. Resolving the reference is always recorded.
         try:
-            self.merge(new_section, strict=False)
+            self._merge(new_section, False, True)
         except Exception:
             # The referenced Section cannot be merged (e.g. values that do not
             # fit): the link is refused and the Section stays as it was. A
@@ -776,6 +776,18 @@ class BaseSection(base.Sectionable):
                 self.include = self._include
             return
 
+        # A Section whose link or include is resolved stays merged with the
+        # Section it refers to: clean() has to take back exactly that merge.
+        # What is merged into it on top is not recorded, neither here nor
+        # further down, and becomes content of its own.
+        self._merge(section, strict,
+                    not (self._merged is not None and self.can_be_merged))
+
+    def _merge(self, section, strict, record):
+        """
+        Merges this Section with *section*. If *record* is False, the merge leaves
+        no trace in *_merged* and *_merged_attrs* of any Section involved.
+        """
         # Check all the way down the tree if the destination source and
         # its children can be merged with self and its children since
         # there is no rollback in case of a downstream merge error.
@@ -791,17 +803,21 @@ class BaseSection(base.Sectionable):
         if self.reference is None and section.reference is not None:
             self.reference = section.reference
             filled["reference"] = self.reference
-        self._merged_attrs = filled
+        if record:
+            self._merged_attrs = filled
 
         for obj in section:
             mine = self.contains(obj)
-            if mine is not None:
+            if mine is None:
+                mine = obj.clone()
+                mine._merged = obj if record else None
+                self.append(mine)
+            elif record or not isinstance(mine, BaseSection):
                 mine.merge(obj, strict)
             else:
-                mine = obj.clone()
-                mine._merged = obj
-                self.append(mine)
-        self._merged = section
+                mine._merge(obj, strict, False)
+        if record:
+            self._merged = section
 
     @inherit_docstring
     def clean(self):
